@@ -621,10 +621,7 @@ ChainMaxDepth(fam, L, w, id) ==
 (* Sizes used by the termination variants *)
 
 RECURSIVE SizeV(_)
-SizeV(v) ==
-    LET E[i \in 0..Len(v.e)] == IF i = 0 THEN 0 ELSE E[i - 1] + SizeV(v.e[i])
-        D[i \in 0..Len(v.d)] == IF i = 0 THEN 0 ELSE D[i - 1] + SizeV(v.d[i][2])
-    IN 1 + E[Len(v.e)] + D[Len(v.d)]
+SizeV(v) == 1 + FoldLeft(LAMBDA acc, x : acc + SizeV(x), 0, v.e) + FoldLeft(LAMBDA acc, p : acc + SizeV(p[2]), 0, v.d)
 
 SizeDoc(doc) == FoldLeft(LAMBDA acc, v : acc + SizeV(v), 1, doc.objs)
 
